@@ -27,37 +27,43 @@ class InjectedFault(Exception):
     pass
 
 
-FAULT_TYPES = [InjectedFault, IndexError, ValueError, KeyError, ZeroDivisionError, RuntimeError, FloatingPointError, LookupError, ArithmeticError, TypeError, AttributeError, OverflowError, AssertionError, OSError]
+FAULT_TYPES = [InjectedFault, IndexError, ValueError, KeyError, ZeroDivisionError, RuntimeError, FloatingPointError, LookupError, ArithmeticError, TypeError, AttributeError, OverflowError, AssertionError, OSError, StopIteration, StopAsyncIteration]
 
 
 class FailAt:
     """cloudf(lat, long): raises for the event with lat == k (events carry lat = index).
     The exception class varies (a handler written for one type must not swallow a failure)."""
 
-    def __init__(self, k, top=-np.inf, exc=InjectedFault):
+    def __init__(self, k, top=-np.inf, exc=InjectedFault, nan=None):
         self.k = k
         self.top = top
         self.exc = exc
+        self.nan = NAN_TOPS if nan is None else nan
 
     def __call__(self, lat, long):
         if self.k is not None and float(lat) == float(self.k):
             raise self.exc(f"injected failure at event {self.k}")
         if self.top == "varying":
-            return varying_top(lat)
+            return varying_top(lat, self.nan)
         return self.top
 
 
-def varying_top(lat):
+NAN_TOPS = True  # module default, switched off by a check whose kernel raises on a NaN cloud top
+
+
+def varying_top(lat, nan=True):
     """A cloud top that depends on the event (events carry lat = index): -inf for every third
-    event, otherwise 0.5 .. 6.5 km. Per-event state parked on a shared object shows up as a
-    wrong cloud top for some other event."""
+    event, NaN for every eleventh, otherwise 0.5 .. 6.5 km. Per-event state parked on a shared
+    object shows up as a wrong cloud top for some other event."""
     i = int(round(float(lat)))
+    if nan and i % 11 == 5:
+        return np.nan  # a map cell without data: every comparison with it is False
     return -np.inf if i % 3 == 0 else 0.5 + (i * 7 % 13) * 0.5
 
 
 class VaryingCloud(FailAt):
-    def __init__(self):
-        super().__init__(None, top="varying")
+    def __init__(self, nan=None):
+        super().__init__(None, top="varying", nan=nan)
 
 
 class AdversarialExecutor(cf.Executor):
